@@ -221,7 +221,7 @@ def cfg_lines(good, faulty, tails, maxpre, nlkinds, inv):
 
 
 def cfg_linemap(good, faulty, tails, maxpre, header, starts, inv):
-    s = ("CONSTANTS\n  Good = {%s}\n  Faulty = {%s}\n  Tails = {%s}\n  MaxPre = %d\n  NLKinds = {\"lf\"}\n  Routes = {\"string\"}\n  RichOverrides = TRUE\n  Header = %d\n"
+    s = ("CONSTANTS\n  Good = {%s}\n  Faulty = {%s}\n  Tails = {%s}\n  MaxPre = %d\n  NLKinds = {\"lf\"}\n  Routes = {\"string\"}\n  RichOverrides = TRUE\n  Opts = {\"none\"}\n  SourceIsLexedText = TRUE\n  Header = %d\n"
          "  BlockCallStartsSource = %s\nSPECIFICATION LMSpec\nCHECK_DEADLOCK FALSE\n"
          % (", ".join(map(str, good)), ", ".join(map(str, faulty)), ", ".join(map(str, tails)), maxpre, header,
             "TRUE" if starts else "FALSE"))
@@ -331,7 +331,7 @@ def render_and_observe(get, stubs, want_templates=False, plain_too=True):
     from mako import exceptions
     o = {}
     old = signal.signal(signal.SIGALRM, _alarm)
-    signal.alarm(20)
+    signal.alarm(core.tscale(20))
     try:
         try:
             t = get()
@@ -380,14 +380,14 @@ def html_frames(html):
             continue
         body = m.group(3)
         mc = re.search(r'<td class="code">(.*?)</td>', body, re.S) or re.search(r'<div class="sourceline">(.*?)</div>', body, re.S)
-        shown = _h.unescape(re.sub(r"<[^>]*>", "", mc.group(1))).strip() if mc else None
+        shown = _h.unescape(re.sub(r"<[^>]*>", "", mc.group(1))).strip().lstrip("\ufeff").strip() if mc else None
         out.append((_h.unescape(m.group(1)), int(m.group(2)), shown))
     return out
 
 
 def text_frames(txt):
     """[(file, line, function, displayed source text)] of text_error_template output."""
-    return [(a, int(b), c, d.strip()) for a, b, c, d in re.findall(r'  File "([^"\n]*)", line (\d+), in (\S+)\n    ([^\n]*)', txt)]
+    return [(a, int(b), c, d.strip().lstrip("\ufeff").strip()) for a, b, c, d in re.findall(r'  File "([^"\n]*)", line (\d+), in (\S+)\n    ([^\n]*)', txt)]
 
 
 def compare_frames(exp, o, texts):
@@ -406,13 +406,14 @@ def compare_frames(exp, o, texts):
         if fname is None and not str(f["file"]).startswith("memory:"):
             return (tag, "filename")
         want = lc.physical_line(texts[uri], line)
-        if (f["text"] or "").rstrip("\r") != want:
+        # (a byte-order mark at the very beginning of the displayed source is not compared)
+        if (f["text"] or "").rstrip("\r").lstrip("\ufeff") != want:
             return (tag, "source-line")
-        if f["src"] != texts[uri]:
+        if (f["src"] or "").lstrip("\ufeff") != texts[uri]:
             return (tag, "source")
     if not o["python_frames_unchanged"]:
         return ("python-frames", "altered")
-    if o["lineno"] != exp[-1][2] or o["source"] != texts[exp[-1][1]]:
+    if o["lineno"] != exp[-1][2] or (o["source"] or "").lstrip("\ufeff") != texts[exp[-1][1]]:
         return ("richtraceback", "lineno-source")
     if "tmpl_exc" in o:
         return ("error-template", "raises:" + o["tmpl_exc"])
@@ -495,7 +496,7 @@ def check(run):
         n0 = len(seen)
         for c in res.json_lines():
             if isinstance(c, dict) and "seq" in c and "frames" in c:
-                key = (tuple(c["seq"]), c["nl"], c.get("route", "string"))
+                key = (tuple(c["seq"]), c["nl"], c.get("route", "string"), c.get("opt", "none"))
                 if key not in seen:
                     seen.add(key)
                     c["group"] = group
@@ -559,6 +560,15 @@ def check(run):
     if res.violated:
         run.spec_violation(res)
     n_spell = take(res, "spelled")
+    # options that transform the text before lexing or change the layout of the generated module (Lines.tla `Opts`)
+    orep = [i + 1 for i, e in enumerate(E) if e["id"] in ("rt.expr", "rt.block", "rt.ctl.if", "rt.defcall", "rt.calltag", "w.block", "w.modexec")]
+    res = run.tlc("MC_Lines", c11.cfg(few[:1], orep, [], 1, ["lf"], inv + ["SourceConsistent"], opts=c11.OPTS), name="mc-options",
+                  workers=workers, extra_files=files)
+    if res.violated:
+        run.spec_violation(res)
+    n_opt = take(res, "opt")
+    if n_opt < len(orep) * len(c11.OPTS):
+        raise MachineryError("option instance exported only %d cases" % n_opt)
     if n_spell < len(SPELLINGS) * (len(rep) + len(wrep)):
         raise MachineryError("path-spelling instance exported only %d cases" % n_spell)
     # ------------------------------------------------------------------ 2. TLC: the printer's accounting (LineMap.tla)
@@ -604,7 +614,8 @@ def check(run):
     work = run.subdir("world")
     cases.sort(key=lambda c: (c["seq"], c["nl"]))
     spelled = [c for c in cases if c.get("route", "string") != "string"]
-    cases = [c for c in cases if c.get("route", "string") == "string"]
+    opted = [c for c in cases if c.get("opt", "none") != "none"]
+    cases = [c for c in cases if c.get("route", "string") == "string" and c.get("opt", "none") == "none"]
     leafs = [c for c in cases if E[c["seq"][c["fpos"] - 1] - 1]["group"] in ("raise", "raise-brk")]
     hopc = [c for c in cases if E[c["seq"][c["fpos"] - 1] - 1]["group"] == "hop"]
     warnc = [c for c in cases if E[c["seq"][c["fpos"] - 1] - 1]["group"] in ("warn", "warn-brk")]
@@ -642,12 +653,12 @@ def check(run):
         paths = ["plain"]
         key = (fe["id"], c["nl"])
         is_sus = any(E[i - 1]["group"] == "sus" for i in c["seq"]) or c["group"] == "rep"
-        if c["group"] == "rt" and key in seen_paths and hsh(ci, "pl") % 2:
+        if c["group"] == "rt" and key in seen_paths and hsh(ci, "pl") % 3:
             continue        # (sampling the largest instance; every entry x terminator is rendered on all paths once, see below)
         if key not in seen_paths or hsh(ci) % stride == 0:
             seen_paths.add(key)
             paths += ["lookup-strings", "file", "lookup", "moddir"]
-        elif is_sus:
+        elif is_sus and (c["group"] != "rep" or hsh(ci, "rp") % 2 == 0):
             paths += [["file", "moddir", "lookup", "lookup-strings"][hsh(ci, "sus") % 4]]
         for p in paths:
             from mako.template import Template
@@ -713,7 +724,7 @@ def check(run):
         if ci < 3:
             run.sample({"layout": [E[i - 1]["id"] for i in c["seq"]], "nl": c["nl"], "template": text, "expected_frame_lines": c["frames"]})
     # ---- format_exceptions output
-    fx = leafs[:: max(1, len(leafs) // 60)] + [c for c in leafs if any(E[i - 1]["group"] == "sus" for i in c["seq"])]
+    fx = leafs[:: max(1, len(leafs) // 40)] + [c for c in leafs if any(E[i - 1]["group"] == "sus" for i in c["seq"])]
     for ci, c in enumerate(fx):
         from mako.template import Template
         nl = "\n" if c["nl"] == "lf" else "\r\n"
@@ -738,7 +749,7 @@ def check(run):
                      {"template": text, "shown": locs, "expected": c["frames"]})
     # ---- chains: top -> (hop)* -> leaf
     rng = run.rng
-    n_chain = 600 if thorough else 120
+    n_chain = 600 if thorough else 100
     for k in range(n_chain):
         depth = rng.choice([1, 1, 2])
         chain = [rng.choice(hopc) for _ in range(depth)] + [rng.choice(leafs)]
@@ -854,8 +865,48 @@ def check(run):
                                                                                            else ("filename" if got_shown[0]["file"] != fabs else "line"))
                     note("warning:%s:%s:%s:%s" % (fe["id"], action, clause, sig_route), "route %s: result %s shown %s; expected %s %s" % (c["route"], res, shown, want_res, want_shown),
                          {"template": text, "route": c["route"], "action": action})
+    # ---- option configurations: frame lines are lines of the text the lexer lexes, and so is the displayed source
+    for ci, c in enumerate(opted):
+        from mako.template import Template
+        fe = fe_of(c)
+        text = compose(E, c["seq"], "\n")
+        raw, kw, lexed = c11.apply_option(c["opt"], text)
+        root = os.path.join(work, "opt")
+        shutil.rmtree(root, ignore_errors=True)
+        os.makedirs(root)
+        fn = os.path.join(root, "t.html")
+        with open(fn, "wb") as f:
+            f.write(raw if isinstance(raw, bytes) else raw.encode("utf-8"))
+        if fe["group"] == "raise":
+            for p, mk, fname in (("plain", lambda: Template(raw, **kw), None),
+                                 ("moddir", lambda: Template(filename=fn, module_directory=os.path.join(root, "mods"), **kw), fn)):
+                o = render_and_observe(mk, stubs_of(c), want_templates=(hsh(ci, p) % 2 == 0), plain_too=False)
+                n_render += 1
+                d = compare_frames([(fname, "/t.html", l) for l in c["frames"]], o, {"/t.html": lexed})
+                if d:
+                    sig = "frame:%s:%s:%s" % (fe["id"], d[0], d[1])
+                    if sig not in mism:
+                        sig += ":option-" + c["opt"]
+                    note(sig, "option %s, %s: frames %s" % (c["opt"], p, [(f["fn"], f["line"], f["text"]) for f in o.get("frames", [])] if o["res"] == "exc" else o["res"]),
+                         {"template": text, "option": c["opt"], "path": p, "expected_frame_lines": c["frames"]})
+        else:
+            home = c["frames"][-1]
+            for action in ("always", "error"):
+                ex = wexp[(fe["f"]["site"], action)]
+                res, shown = observe_warnings(action, lambda: Template(filename=fn, **kw))
+                n_warn += 1
+                want_res = {"none": "ok", "SyntaxException@home": "SyntaxException@%d" % c["fline"], "warning-itself": "warning-itself"}[ex["exc"]]
+                want_shown = [{"file": fn, "line": home} for _ in ex["shown"]]
+                got_shown = [{"file": x["file"], "line": x["line"]} for x in shown]
+                if res != want_res or got_shown != want_shown:
+                    clause = ("result:" + re.sub(r"\d+", "N", res)) if res != want_res else ("shown-%d-times" % len(got_shown) if len(got_shown) != len(want_shown)
+                                                                                           else ("filename" if got_shown[0]["file"] != fn else ("line-early" if got_shown[0]["line"] < home else "line-late")))
+                    sig = "warning:%s:%s:%s" % (fe["id"], action, clause)
+                    if sig not in mism:
+                        sig += ":option-" + c["opt"]
+                    note(sig, "option %s: result %s shown %s; expected %s %s" % (c["opt"], res, shown, want_res, want_shown), {"template": text, "option": c["opt"]})
     # ---- warnings
-    wstride = 5 if thorough else 29
+    wstride = 5 if thorough else 41
     for ci, c in enumerate(warnc):
         fe = fe_of(c)
         is_rep = c["group"] == "rep"
@@ -949,6 +1000,8 @@ def check(run):
         "hoisted variable declarations and the __M_locals bookkeeping lines are not planted positions",
         "filler lines holding \\x0c \\x0b \\x85 U+2028 U+2029 \\x1c lone-CR NBSP and a non-BMP character precede 7 representative raises on every run; the "
         "displayed source text of every template frame is compared on all surfaces (records, text/html templates, format_exceptions)",
+        "options (preprocessor identity / deleting / inserting lines / a list, bytes with magic comment, BOM, strict_undefined, enable_loop=False, "
+        "imports, future_imports, default_filters) x 5 raises and 2 warning entries: frame lines, displayed source text and warning lines refer to the text the lexer lexes",
         "path spellings: module_directory absolute+slash / relative / relative+slash / ./ / dir/../dir x template filename or lookup directory "
         "absolute / relative, run with cwd = the world's root, for 7 representative raises and 4 warning entries (frames, error templates, warnings)",
         "also: RichTraceback inside an error_handler, format_exceptions through a lookup, html page with and without pygments (only file, line "
